@@ -49,6 +49,15 @@ pub fn pick(sel: u16, len: usize) -> usize {
     (sel as usize * len) >> 16
 }
 
+/// Smallest selector that `pick` maps to `k` (for enumerations expressed with selectors).
+pub fn unpick(k: usize, len: usize) -> u16 {
+    let mut sel = ((k << 16) / len.max(1)) as u32;
+    while pick(sel.min(65535) as u16, len) < k && sel < 65535 {
+        sel += 1;
+    }
+    sel.min(65535) as u16
+}
+
 pub fn type_name_of(size: usize, align: usize) -> String {
     format!("vt::S{}A{}", size, align)
 }
